@@ -90,13 +90,13 @@ def run_path(interp: Interp, fi, contract):
         n = Roots(roots, ctx.trace[n_pre_events:], interp)
         matched = [rc for rc in contract.raises if issubclass(exc.cls, rc.exc)]
         if not matched:
-            ctx.oblige(f"{fq}::safety::no-{exc.cls.__name__}@{exc.line}", False, kind="safety", line=exc.line,
-                       props=contract.props, info=f"path raises undeclared {exc.cls.__name__}")
+            ctx.oblige(f"{fq}::safety::no-{exc.cls.__name__}@{exc.origin}", False, kind="safety", line=exc.line,
+                       props=contract.props, info=f"path raises undeclared {exc.cls.__name__} at line {exc.line}")
         else:
             # the exception must be allowed by at least one clause; each allowing clause's post must hold
             whens = [(rc.when(o) if rc.when is not None else True) for rc in matched]
             from .values import Or_
-            ctx.oblige(f"{fq}::raises::{exc.cls.__name__}.allowed@{exc.line}", Or_(*whens), kind="raises", line=exc.line,
+            ctx.oblige(f"{fq}::raises::{exc.cls.__name__}.allowed@{exc.origin}", Or_(*whens), kind="raises", line=exc.line,
                        props=sum((rc.props for rc in matched), ()))
             for rc, w in zip(matched, whens):
                 if rc.post is not None:
